@@ -608,6 +608,16 @@ template <class G> struct Exec {
       st->ebuf[i] = ebufs ? static_cast<S*>(ebufs[i]) : static_cast<S*>(Eigen::internal::aligned_malloc(sizeof(S) * Rep));
     for (int i = 0; i < St::NT; ++i)
       st->tbuf[i] = tbufs ? static_cast<S*>(tbufs[i]) : static_cast<S*>(Eigen::internal::aligned_malloc(sizeof(S) * DoF));
+    // deterministic initial content: identity coefficients / zero tangents / zero points, written raw
+    LayoutAcc acc; Layout<G>::fill(acc, 0, 0);
+    double idc[Rep > 0 ? Rep : 1];
+    for (int i = 0; i < Rep; ++i) idc[i] = 0;
+    for (int k = 0; k < acc.n_unit; ++k) idc[acc.unit[k].off + (acc.unit[k].len == 4 ? 3 : 0)] = 1;
+    double zt[DoF > 0 ? DoF : 1]; for (int i = 0; i < DoF; ++i) zt[i] = 0;
+    double zp[Dim > 0 ? Dim : 1]; for (int i = 0; i < Dim; ++i) zp[i] = 0;
+    for (int i = 0; i < St::NE; ++i) set_elem(st, i, 2, idc);
+    for (int i = 0; i < St::NT; ++i) set_tan(st, i, 2, zt);
+    for (int i = 0; i < St::NP; ++i) set_pt(st, i, zp);
     return st;
   }
   static void state_free(void* stv) {
